@@ -12,6 +12,7 @@ Fixpoint spine_ops (c : cst) : list token :=
   | CIndex l _ | CSlice l _ _ _ | CWild l _ => spine_ops l ++ [TLbracket]
   | CFlatten l _ => spine_ops l ++ [TFlatten]
   | CFilter l _ _ => spine_ops l ++ [TFilter]
+  | CCallOn l _ _ _ => spine_ops l ++ [TLparen]
   | _ => []
   end.
 
@@ -50,6 +51,11 @@ Section Prec.
     | CSlice l _ _ k | CWild l k => inner l /\ innerk (L TStar) k
     | CFlatten l k => inner l /\ innerk (L TFlatten) k
     | CFilter l p k => inner l /\ (tighter 0 p /\ inner p) /\ innerk (L TFilter) k
+    | CAmp x => tighter (L TAmpersand) x /\ inner x
+    | CCallOn l _ _ args =>
+        inner l /\
+        (fix all (args : list (bool * cst)) : Prop :=
+           match args with [] => True | (b, x) :: r => (tighter (if b then L TAmpersand else 0) x /\ inner x) /\ all r end) args
     end
   with innerk (bp : Z) (k : cont) : Prop :=
     match k with
@@ -80,6 +86,12 @@ Section Prec.
   Lemma inner_call off name args : inner (CCall off name args) <-> Forall arg_prec args.
   Proof.
     cbn [inner]. unfold arg_prec, prec. split; intros H.
+    - induction args as [|[b x] r IH]; [constructor|]. destruct H as [Hx Hr]. constructor; [exact Hx|exact (IH Hr)].
+    - induction H as [|[b x] r Hx Hr IH]; [exact I|]. split; [exact Hx|exact IH].
+  Qed.
+  Lemma inner_callon l off name args : inner (CCallOn l off name args) <-> inner l /\ Forall arg_prec args.
+  Proof.
+    cbn [inner]. unfold arg_prec, prec. split; intros [Hl H]; (split; [exact Hl|]).
     - induction args as [|[b x] r IH]; [constructor|]. destruct H as [Hx Hr]. constructor; [exact Hx|exact (IH Hr)].
     - induction H as [|[b x] r Hx Hr IH]; [exact I|]. split; [exact Hx|exact IH].
   Qed.
